@@ -122,6 +122,21 @@ theorem appendSamplePoint_old_keeps_guide (t : Table K) (i : Nat) (y v : K)
   simp only [this, if_true, hg]
   exact ⟨_, rfl, by simp⟩
 
+/-- On a sample column, between two adjacent rows `j`, `j+1` of that column (any number of
+rows), the 2-D function is the straight line through these two rows — never the line of a
+neighbouring segment. -/
+theorem eval_on_branch_segment (t : Table K) (hs : StrictInc t.xPos) (hn : 2 ≤ t.xPos.length)
+    (k : Nat) (hk : k < t.xPos.length) (hc : StrictInc (col t.colY k)) (hcn : 2 ≤ (col t.colY k).length)
+    (j : Nat) (hj : j + 1 < (col t.colY k).length) (y : K)
+    (h1 : nth (col t.colY k) j ≤ y) (h2 : y ≤ nth (col t.colY k) (j + 1)) :
+    Tab2D.eval t (nth t.xPos k) y = evalSeg (col t.colY k) (col t.colV k) j y := by
+  rw [eval_on_column t hs hn k hk y]
+  rcases eq_or_lt_of_le h1 with e | l1
+  · rw [← e, evalX_node _ hc hcn j (by omega), evalSeg_left]
+  · rcases eq_or_lt_of_le h2 with e | l2
+    · rw [e, evalX_node _ hc hcn (j + 1) hj, (evalSeg_continuous_at_node _ hc j hj).1]
+    · unfold evalX; rw [segIdx_of_mem_open hc hcn y j hj l1 l2]
+
 end OpmVerif.Tab2D
 
 namespace OpmVerif.Pvt
